@@ -68,6 +68,7 @@ class Ctx(object):
         self.busy_seen = 0
         self.busy_expired = 0
         self.observations = []
+        self.fault_filter = None   # callable(ev, requested) -> actual fault kind or None
 
     def thread_name(self):
         s = simsched.current_scheduler()
@@ -135,6 +136,8 @@ def _intercept(conn, kind, sql=None, params=None, many=False, cursor=None):
         fk = c.faults.pop((thread, k), None)
         if fk is None:
             fk = c.gfaults.pop(g, None)
+    if fk is not None and c.fault_filter is not None:
+        fk = c.fault_filter(ev, fk)
     if fk is not None:
         ev['fault'] = fk
         c.fired.append([g, thread, k, kind, fk])
